@@ -11,7 +11,13 @@
 (* rather than by the model would leak),  Reload(model)  (save -> load and *)
 (* continue with the new object) or  Split(model)  (to_ode / minus, code  *)
 (* of both halves generated with argument objects - the requested missing  *)
-(* values, the stiff states - that the client keeps and passes again).     *)
+(* values, the stiff states - that the client keeps and passes again), or  *)
+(* Load(model)  (the model's TEXT is parsed again and replaces the live    *)
+(* object; observed: the components of the loaded model and its code).     *)
+(* m3 is written the other way round - assignments first, without a header,*)
+(* declarations after them, one headed block at the end - so that whatever *)
+(* a loader kept from the END of one text would meet the BEGINNING of the  *)
+(* next.                                                                   *)
 (* TLC enumerates every history up to MaxCalls; each is replayed in ONE    *)
 (* process and every observation is compared with the same call made alone *)
 (* in a fresh process.                                                     *)
@@ -19,9 +25,10 @@
 EXTENDS Integers, Sequences, TLC, Json
 CONSTANT MaxCalls
 
-Models == {"m1", "m2"}
+Models == {"m1", "m2", "m3"}
 Calls == {[op |-> "code", m |-> m, ru |-> ru, be |-> be, sch |-> sch] : m \in Models, ru \in BOOLEAN, be \in {"numpy", "c"}, sch \in BOOLEAN}
          \cup {[op |-> "reload", m |-> m] : m \in Models} \cup {[op |-> "split", m |-> m] : m \in Models}
+         \cup {[op |-> "load", m |-> m] : m \in Models}
 
 VARIABLES hist, obs
 vars == <<hist, obs>>
@@ -34,6 +41,6 @@ Spec == Init /\ [][Next]_vars
 
 C09_HistoryIndependent == \A i \in 1..Len(hist) : obs[i] = ObsOf(hist[i])
 \* only histories that end in an observable call and contain at least two different models or options are interesting
-Interesting == Len(hist) = MaxCalls /\ hist[Len(hist)].op \in {"code", "split"} /\ \E i \in 1..(Len(hist) - 1) : hist[i] # hist[Len(hist)]
+Interesting == Len(hist) = MaxCalls /\ hist[Len(hist)].op \in {"code", "split", "load"} /\ \E i \in 1..(Len(hist) - 1) : hist[i] # hist[Len(hist)]
 EmitHist == Interesting => PrintT(ToJson([hist |-> hist]))
 =============================================================================
